@@ -129,6 +129,12 @@ def app(op, *args):
     if op in ('index', 'upd') and len(args) >= 2 and args[1][0] == 'app' and args[1][1] == 'array' and len(args[1][2]) == 1:
         # x[[k]] on a one-dimensional array is x[k]: one spelling
         args = (args[0], args[1][2][0]) + tuple(args[2:])
+    if op == 'index' and len(args) == 2 and args[1][0] == 'num' and args[1][2] == 1:
+        b_ = args[0]
+        if b_[0] == 'app' and b_[1] == 'array' and 0 <= args[1][1] < len(b_[2]):
+            return b_[2][args[1][1]]                      # [a, b, c][1] is b
+        if b_[0] == 'ite' and all(x[0] == 'app' and x[1] == 'array' and 0 <= args[1][1] < len(x[2]) for x in (b_[2], b_[3])):
+            return ite(b_[1], b_[2][2][args[1][1]], b_[3][2][args[1][1]])      # (if c { [a, b] } else { [d, e] })[0] is if c { a } else { d }
     if op == 'push' and len(args) == 2 and args[0][0] == 'app' and args[0][1] == 'array':
         return mk('app', 'array', tuple(args[0][2]) + (args[1],))         # [a, b].push(c) is [a, b, c]
     if op == 'index' and len(args) == 2 and args[1][0] == 'app' and args[1][1] == 'range' and len(args[1][2]) == 2 \
